@@ -45,8 +45,12 @@ from .. import fx_retrieval as fx
 from .. import fx_like as fl
 from .. import fx_likeobs as fo
 from .. import fx_likegrid as fg
+from .. import fx_likehist as fh
+from .. import fx_likenorm as fn
+from .. import history
 
 SAMPLERS = ('nestle', 'multinest', 'polychord')
+WIDE_CLASSES = fg.LAYOUT_CLASSES + ('survey',)       # layout classes of the wide real world
 REL = 1e-9
 S = 1000
 
@@ -125,9 +129,10 @@ def make_optimizer(sampler, obs, model, tmpdir):
 # binding C: simulated behaviours on the toy world
 # ----------------------------------------------------------------------------------------------
 
-def toy_bound(sampler, layout, tmpdir):
+def toy_bound(sampler, layout, tmpdir, obs=None):
     model = fl.make_toy(layout)
-    obs = fo.make_toy_obs(layout)                # "obs": the observation carries fitted parameters (offset, scale)
+    if obs is None:
+        obs = fo.make_toy_obs(layout)            # "obs": the observation carries fitted parameters (offset, scale)
     opt = make_optimizer(sampler, obs, model, tmpdir)
     w = fx.TOY[layout]
     for n, f in zip(w['names'], w['fit']):
@@ -156,6 +161,8 @@ def obs_moved(layout, step):
 def call_class(step):
     if step['op'] == 'prior':
         return 'prior'
+    if step['op'] == 'setobs':
+        return 'setobs'
     if step['inj'] != 'none':
         return 'inject:' + step['inj']
     if step['k'] == 'num':
@@ -163,16 +170,46 @@ def call_class(step):
     return 'natural-invalid'
 
 
+def reuse_class(beh, i):
+    """How the optimizer of a behaviour was used before step i: '' (first observation), or the observation it was
+    pointed at with set_observed (same / other number of bins than the observation before)."""
+    cur, suffix = 1, ''
+    for st in beh['hist'][:i + 1]:
+        if st['op'] == 'setobs':
+            same = len(beh['obs'][st['ob'] - 1]['data']) == len(beh['obs'][cur - 1]['data'])
+            cur, suffix = st['ob'], ':reused:%s-nbins' % ('same' if same else 'other')
+    return suffix
+
+
 def replay_behaviour(ctx, sampler, beh, tmpdir):
-    layout = beh['layout']
-    b, model, obs = toy_bound(sampler, layout, tmpdir)
-    C = fx.gauss_const(fx.TOY[layout]['sig'])
+    layout = {'histsim': 'hist'}.get(beh['layout'], beh['layout'])
+    # the observations the ONE optimizer of this behaviour is pointed at (printed by TLC with the behaviour)
+    observations = fh.toy_observations(beh['obs']) if len(beh.get('obs') or ()) > 1 else None
+    b, model, obs = toy_bound(sampler, layout, tmpdir, obs=observations[0] if observations else None)
+    sigs = [r['sig'] for r in beh['obs']] if observations else [fx.TOY[layout]['sig']]
+    C = fx.gauss_const(sigs[0])
     nfit = sum(fx.TOY[layout]['fit']) + sum(1 for par in fo.obs_params(layout) if par[6])
     if b.ndim != nfit:
         ctx.verdict('ndim', False, cls='%s:%s' % (sampler, layout), detail='ndim %r' % b.ndim, vector=None)
     for i, step in enumerate(beh['hist']):
-        cls = '%s:%s:%s%s' % (sampler, layout, call_class(step), ':obs-moved' if obs_moved(layout, step) else '')
-        vec = dict(kind='behaviour', sampler=sampler, layout=layout, hist=beh['hist'][:i + 1])
+        cls = '%s:%s:%s%s%s' % (sampler, layout, call_class(step), ':obs-moved' if obs_moved(layout, step) else '',
+                                reuse_class(beh, i) if observations else '')
+        vec = dict(kind='behaviour', sampler=sampler, layout=layout, hist=beh['hist'][:i + 1], obs=beh.get('obs'))
+        if step['op'] == 'setobs':
+            # the long-lived optimizer is pointed at another observation; a new fit hands new callbacks to the sampler
+            try:
+                b.opt.set_observed(observations[step['ob'] - 1])
+                b.opt.compile_params()
+                b = Bound(sampler, b.opt, tmpdir)
+            except Machinery:
+                raise
+            except Exception as e:   # noqa
+                ctx.verdict('never_raises', False, cls=cls, detail='set_observed / compile_params / compute_fit raised %r'
+                            % (e,), vector=vec)
+                return
+            obs = observations[step['ob'] - 1]
+            C = fx.gauss_const(sigs[step['ob'] - 1])
+            continue
         if step['op'] == 'prior':
             u = [float(frac(v)) for v in step['u']]
             try:
@@ -203,8 +240,9 @@ def replay_behaviour(ctx, sampler, beh, tmpdir):
         if step['k'] == 'num':
             exp = C - float(frac(step['h']))
             ok = math.isfinite(ret) and close(ret, exp, rel=REL, abs_=1e-12)
-            ctx.verdict('valid_equals_gaussian', ok, cls=cls, detail='got %r expected %r (chi2/2 = %s)' %
-                        (ret, exp, frac(step['h'])), vector=vec)
+            ctx.verdict('valid_equals_gaussian', ok, cls=cls, detail='got %r expected %r (chi2/2 = %s%s)' %
+                        (ret, exp, frac(step['h']), ', observation %d of this optimizer' % step['ob'] if observations else ''),
+                        vector=vec)
         elif step['k'] == 'part':
             # NaN in some bins: the statement is silent; non-finite, or the Gaussian over the comparable bins
             exp = C - float(frac(step['h']))
@@ -220,16 +258,20 @@ def replay_behaviour(ctx, sampler, beh, tmpdir):
 
 FAULT_RUNS = (('InvalidModel', 'NaNAll'), ('InvalidChemistry', 'NaNSome'), ('InvalidTemperature', 'NaNAll'))
 FAULT_RUNS_OBS = (('InvalidModel', 'NaNAll'), ('InvalidTemperature', 'NaNSome'))     # quick tier, layout "obs"
+FAULT_RUNS_HIST = (('InvalidModel', None),)        # layout "hist": few successors besides SetObserved, longer walks
 
 
 def run_behaviours(ctx, nbeh, depth, layouts):
     tmpdir = tempfile.mkdtemp(prefix='c06_')
+    depth0 = depth
     try:
         total = 0
         seen = set()
         for li, layout in enumerate(layouts):
-            runs = FAULT_RUNS_OBS if (layout == 'obs' and ctx.tier == 'quick') else FAULT_RUNS
+            runs = FAULT_RUNS_HIST if layout == 'hist' else \
+                FAULT_RUNS_OBS if (layout == 'obs' and ctx.tier == 'quick') else FAULT_RUNS
             for fi, (fault, nanfault) in enumerate(runs):
+                depth = depth0 + 3 if layout == 'hist' else depth0
                 cfg = make_sim_cfg(layout, fault, nanfault, depth)
                 try:
                     res = run_tlc('MC_Likelihood', cfg, workers=1, simulate='num=%d' % nbeh, depth=depth,
@@ -246,6 +288,8 @@ def run_behaviours(ctx, nbeh, depth, layouts):
                     replay_behaviour(ctx, sampler, beh, tmpdir)
                     seen |= {(layout, call_class(st)) for st in beh['hist']}
                     seen |= {(layout, call_class(st) + ':obs-moved') for st in beh['hist'] if obs_moved(layout, st)}
+                    if layout == 'hist':
+                        seen |= {(layout, call_class(st) + reuse_class(beh, i)) for i, st in enumerate(beh['hist'])}
                     total += 1
                     ctx.traces += 1
                 if li == 0 and fi == 0:
@@ -253,11 +297,19 @@ def run_behaviours(ctx, nbeh, depth, layouts):
         # vacuity: every layout must have met a valid call, a natural invalid one and each injected fault class
         for layout in layouts:
             for c in ('prior', 'valid', 'natural-invalid', 'inject:NaNAll', 'inject:NaNSome', 'inject:InvalidModel'):
-                if (layout, c) not in seen:
+                if (layout, c) not in seen and not (layout == 'hist' and c.startswith('inject:NaN')):
                     raise Machinery('simulated behaviours of layout %s never contain a %s call' % (layout, c))
             # an observation with parameters: valid and invalid calls with the observation moved off its initial state
             if fo.obs_params(layout):
                 for c in ('valid:obs-moved', 'natural-invalid:obs-moved'):
+                    if (layout, c) not in seen:
+                        raise Machinery('simulated behaviours of layout %s never contain a %s call' % (layout, c))
+            # one long-lived optimizer pointed at several observations: evaluations after set_observed, to an
+            # observation with the same and with another number of bins
+            if layout == 'hist':
+                for c in ('valid:reused:same-nbins', 'valid:reused:other-nbins', 'chi2zero:reused:other-nbins',
+                          'natural-invalid:reused:same-nbins', 'natural-invalid:reused:other-nbins',
+                          'inject:InvalidModel:reused:other-nbins', 'prior:reused:other-nbins'):
                     if (layout, c) not in seen:
                         raise Machinery('simulated behaviours of layout %s never contain a %s call' % (layout, c))
         return total
@@ -270,12 +322,14 @@ def make_sim_cfg(layout, fault, nanfault, depth):
     from ..core import SPEC, write_cfg
     with open(os.path.join(SPEC, 'SIM_Likelihood.cfg')) as f:
         text = f.read()
-    text = text.replace('Layout = "two"', 'Layout = "%s"' % layout)
+    text = text.replace('Layout = "two"', 'Layout = "%s"' % ('histsim' if layout == 'hist' else layout))
     text = text.replace('Depth = 9', 'Depth = %d' % depth)
     text = text.replace('  Faults = {"InvalidModel"}', '  Faults = {"%s"}' % fault)
-    text = text.replace('NaNFaults = {"NaNAll"}', 'NaNFaults = {"%s"}' % nanfault)
+    text = text.replace('NaNFaults = {"NaNAll"}', 'NaNFaults = {"%s"}' % nanfault if nanfault else 'NaNFaults = {}')
     if layout == 'obs':
         text = text.replace('UDen = 4', 'UDen = 2')      # four fitted parameters: fewer prior successors per state
+    if layout == 'hist':
+        text = text.replace('UDen = 4', 'UDen = 1')      # few successors besides SetObserved: walks that switch often
     return write_cfg(text)
 
 
@@ -349,6 +403,80 @@ def run_grid_vectors(ctx, cfg):
 
 
 # ----------------------------------------------------------------------------------------------
+# history: one long-lived optimizer, settings changed between fits (spec/Functional.tla, harness/history.py)
+# ----------------------------------------------------------------------------------------------
+
+def run_optimizer_history(ctx, nwalks):
+    """TLC-generated walks over the settings a user changes between two fits on the SAME optimizer object (the
+    observation: real ArraySpectrum files with 2, 2 and 3 bins; the fitted subset; the boundaries of a fitted
+    parameter); after every change compile_params() + compute_fit() hand new callbacks to the sampler double, and
+    what they return must equal what a freshly constructed optimizer with the same settings returns."""
+    tmpdir = tempfile.mkdtemp(prefix='c06_')
+    try:
+        scs = [fh.OptimizerHistory(sampler, make_optimizer, Bound, tmpdir) for sampler in SAMPLERS]
+        return history.run_history(ctx, scs, nwalks, clause='reused_optimizer_equals_fresh')
+    finally:
+        shutil.rmtree(tmpdir, ignore_errors=True)
+
+
+# ----------------------------------------------------------------------------------------------
+# binding A: observations of any size and magnitude (spec/LikeNorm.tla, MC_LikeNorm.tla)
+# ----------------------------------------------------------------------------------------------
+
+PRODUCT_CLASS = {'num': 'product-of-sigmas-representable', 'posinf': 'product-of-sigmas-underflows',
+                 'neginf': 'product-of-sigmas-overflows', 'gray': 'product-of-sigmas-near-the-limits'}
+
+
+def run_norm_vectors(ctx, cfg):
+    """Every observation class TLC generates (n bins, unit 2^u, error bars 2^(u - s_b): 3 - 400 (1000) bins, transit
+    depths with ppm-level error bars, fluxes in physical units ~1e-26, large numbers) is realised as a real
+    BaseSpectrum (-> real FluxBinner) over the exact toy, and the callback of EVERY wrapper is compared with
+    -(ln 2 * SUM (u - s_b) + n ln sqrt(2 pi)) - SUM k_b^2 / 2, both sums exact integers from TLC."""
+    res = ctx.check_spec('exhaustive-likenorm', 'MC_LikeNorm', cfg, workers=1)
+    vecs = res.tagged('VEC')
+    if len(vecs) < 12:
+        raise Machinery('MC_LikeNorm exported %d vectors only' % len(vecs))
+    ctx.add_sample(dict(norm_vector={k: (v if not isinstance(v, list) else v[:8]) for k, v in vecs[1].items()}))
+    seen = {}
+    tmpdir = tempfile.mkdtemp(prefix='c06_')
+    try:
+        for v in vecs:
+            seen[v['prod']] = seen.get(v['prod'], 0) + 1
+            obs = fn.norm_observation(v)
+            C = fn.norm_constant(v)
+            if not close(C, fx.gauss_const(obs.errorBar), rel=1e-12, abs_=1e-12):
+                raise Machinery('fixture: the error bars of the observation do not have the exponents of the vector')
+            exp = C - v['chi2'] / 2.0
+            for sampler in SAMPLERS:
+                cls = '%s:norm:%s:%s' % (sampler, v['unit'], PRODUCT_CLASS[v['prod']])
+                vec = dict(kind='norm', cfg=cfg)
+                try:
+                    model = fn.norm_toy(v)
+                    opt = make_optimizer(sampler, obs, model, tmpdir)
+                    opt.compile_params()
+                    b = Bound(sampler, opt, tmpdir)
+                    ret = float(b.loglike([float(v['a'])]))
+                except Machinery:
+                    raise
+                except Exception as e:   # noqa
+                    ctx.verdict('never_raises', False, cls=cls, detail='%d bins, unit 2^%d: raised %r' % (v['n'], v['u'], e),
+                                vector=vec)
+                    continue
+                ok = math.isfinite(ret) and close(ret, exp, rel=REL, abs_=1e-12)
+                ctx.verdict('gaussian_any_size_and_magnitude', ok, cls=cls, detail='%d bins, spectrum in units of 2^%d, error '
+                            'bars 2^%d .. 2^%d: got %r, expected %r = -(ln2 * %d + %d ln sqrt(2 pi)) - %d / 2' %
+                            (v['n'], v['u'], v['u'] - max(v['s']), v['u'] - min(v['s']), ret, exp, v['sumexp'], v['n'],
+                             v['chi2']), vector=vec)
+                ctx.traces += 1
+    finally:
+        shutil.rmtree(tmpdir, ignore_errors=True)
+    ctx.note('size / magnitude vectors: %d observations x 3 samplers; product of the error bars: %r' % (len(vecs), seen))
+    for k in ('num', 'posinf', 'neginf'):
+        if seen.get(k, 0) < 2:
+            raise Machinery('vacuous: fewer than two generated observations whose product of error bars is %s' % k)
+
+
+# ----------------------------------------------------------------------------------------------
 # binding B: real models
 # ----------------------------------------------------------------------------------------------
 
@@ -397,6 +525,7 @@ class RealWorld(object):
         self.sampler = sampler
         self.kind = 'wide' if wide else rng.choice(['isothermal', 'isothermal', 'npoint'])
         self.layout = wide or 'narrow'
+        self.wide = wide
         if self.kind == 'wide':
             self.model = fg.make_wide_transmission()
             self.twin = fg.make_wide_transmission()
@@ -409,46 +538,13 @@ class RealWorld(object):
         self.fault = fl.nan_contribution_class()()
         self.model.add_contribution(self.fault)
         self.model.build()
+        # the reference point the data of every observation of this world are generated at: the initial values
+        self.ref_values = {n: float(self.twin[n]) for n in self.TRACKED[self.kind]}
         self.obspar = rng.random() < 0.4
-        # observation: bin layout (rows of an ArraySpectrum: wavelength, data, error, wavelength width)
-        if self.kind == 'wide':
-            wl, wlw = fg.wide_layout(rng, wide)
-        else:
-            nb = rng.randint(3, 8)
-            centres = np.array(sorted(rng.sample(range(1060, 1941, 20), nb)), dtype=float)
-            widths = np.array([rng.choice([20.0, 40.0, 60.0, 100.0, 150.0]) for _ in centres])
-            wl = 10000.0 / centres
-            wlw = 10000.0 / (centres - widths / 2) - 10000.0 / (centres + widths / 2)
-        probe = ArraySpectrum(np.stack([wl, np.zeros_like(wl), np.ones_like(wl), wlw], axis=1))
-        wl, wlw = probe.rawData[:, 0].copy(), probe.rawData[:, 3].copy()          # in the observation's own order
-        self.bin_lo = probe.wavenumberGrid - probe.binWidths / 2                  # the bins the observation reports
-        self.bin_hi = probe.wavenumberGrid + probe.binWidths / 2
-        nb = len(wl)
-        # error bars, data = twin at a reference point + offsets
-        g, s, _, _ = self.twin.model()
-        if self.kind == 'wide':
-            ref = fg.overlap_mean(g, s, self.bin_lo, self.bin_hi)
-            if not np.all(np.isfinite(ref)):
-                raise Machinery('wide layout has a bin outside the native grid')
-            nat_lo, nat_hi = fg.native_bins(g)
-            if not (self.bin_lo.min() - g.min() > 20 * (nat_hi[0] - nat_lo[0]) and
-                    g.max() - self.bin_hi.max() > 20 * (nat_hi[-1] - nat_lo[-1])):
-                raise Machinery('the native grid is not much wider than the observation')
-        else:
-            from taurex.binning import FluxBinner
-            ref = FluxBinner(probe.wavenumberGrid, probe.binWidths).bindown(g, s)[1]
-        err = np.array([rng.choice([4e-5, 8e-5, 1.6e-4, 3e-4]) for _ in range(nb)])
-        data = ref + err * np.array([rng.randint(-2, 2) for _ in range(nb)])
-        self.d0 = []
-        if self.obspar:
-            self.d0 = [int(round(float(v) / self.DUNIT)) for v in data]
-            data = np.array(self.d0, dtype=float) * self.DUNIT
-        arr = np.stack([wl, data, err, wlw], axis=1)
-        mk = fo.offset_scale_spectrum_class() if self.obspar else ArraySpectrum
-        self.obs = mk(arr.copy())
-        self.twin_obs = mk(arr.copy())
-        self.twin_binner = self.twin_obs.create_binner()
-        self.C = fx.gauss_const(self.twin_obs.errorBar)
+        self.tmpdir = tmpdir
+        self.nobs = 0
+        self.obs_setup = []               # what the user did to the OBSERVATION's parameters through the optimizer
+        self.build_observation()
         # fitted subset (declaration order is the model's then the observation's, not ours) and priors
         cands = self.CANDS[self.kind]
         k = rng.randint(1, min(4, len(cands)))
@@ -464,6 +560,8 @@ class RealWorld(object):
         self.xspace, self.range = {}, {}
         for name, space, (lo, hi) in chosen:
             self.opt.enable_fit(name)
+            if name in self.OBS_ROLE:
+                self.obs_setup.append(lambda name=name: self.opt.enable_fit(name))
             style = rng.random()
             if style >= 0.7 and name in self.CROSS:
                 # a user prior in the other space than the parameter's mode (both directions)
@@ -484,6 +582,8 @@ class RealWorld(object):
                 else:
                     self.opt.set_boundary(name, [a, b])
                     self.pri[name] = ('uniform', a, b)
+                    if name in self.OBS_ROLE:
+                        self.obs_setup.append(lambda name=name, a=a, b=b: self.opt.set_boundary(name, [a, b]))
             elif style < 0.6:
                 if space == 'log':
                     self.opt.set_prior(name, LogUniform(bounds=[a, b]))
@@ -509,6 +609,84 @@ class RealWorld(object):
             self.unf += [n for n, _, _ in self.OBS_CANDS if n not in self.fit]
         self.unf_space = {n: ('log' if self.entry(n)[4] == 'log' else 'lin') for n in self.unf}
         self.bound = Bound(sampler, self.opt, tmpdir)
+
+    def build_observation(self):
+        """A (new) observation of this world: bin layout, error bars, data = twin at the reference point + offsets;
+        sets obs / twin_obs / twin_binner / C / bin_lo / bin_hi / d0."""
+        from taurex.data.spectrum.array import ArraySpectrum
+        rng, wide = self.rng, self.wide
+        self.nobs += 1
+        # observation: bin layout (rows of an ArraySpectrum: wavelength, data, error, wavelength width)
+        if self.kind == 'wide':
+            if self.nobs > 1:                  # the next observation of a re-used optimizer: any other layout class
+                wide = rng.choice([c for c in WIDE_CLASSES if c != self.layout])
+            self.layout = wide
+            wl, wlw = fn.survey_layout(rng) if wide == 'survey' else fg.wide_layout(rng, wide)
+        else:
+            # (the second observation of a re-used optimizer: half of the time with the same number of bins)
+            nb = len(self.bin_lo) if (self.nobs > 1 and rng.random() < 0.5) else rng.randint(3, 8)
+            centres = np.array(sorted(rng.sample(range(1060, 1941, 20), nb)), dtype=float)
+            widths = np.array([rng.choice([20.0, 40.0, 60.0, 100.0, 150.0]) for _ in centres])
+            wl = 10000.0 / centres
+            wlw = 10000.0 / (centres - widths / 2) - 10000.0 / (centres + widths / 2)
+        probe = ArraySpectrum(np.stack([wl, np.zeros_like(wl), np.ones_like(wl), wlw], axis=1))
+        wl, wlw = probe.rawData[:, 0].copy(), probe.rawData[:, 3].copy()          # in the observation's own order
+        self.bin_lo = probe.wavenumberGrid - probe.binWidths / 2                  # the bins the observation reports
+        self.bin_hi = probe.wavenumberGrid + probe.binWidths / 2
+        nb = len(wl)
+        # error bars, data = twin at a reference point + offsets
+        for n, v in self.ref_values.items():
+            self.twin[n] = v
+        g, s, _, _ = self.twin.model()
+        if self.kind == 'wide':
+            ref = fg.overlap_mean(g, s, self.bin_lo, self.bin_hi)
+            if not np.all(np.isfinite(ref)):
+                raise Machinery('wide layout has a bin outside the native grid')
+            nat_lo, nat_hi = fg.native_bins(g)
+            if not (self.bin_lo.min() - g.min() > 20 * (nat_hi[0] - nat_lo[0]) and
+                    g.max() - self.bin_hi.max() > 20 * (nat_hi[-1] - nat_lo[-1])):
+                raise Machinery('the native grid is not much wider than the observation')
+            if self.layout == 'survey' and not fn.inside_window(g, self.bin_lo, self.bin_hi, probe.wavenumberGrid):
+                raise Machinery('survey layout outside the licensed clip window (LGInsideWindow)')
+        else:
+            from taurex.binning import FluxBinner
+            ref = FluxBinner(probe.wavenumberGrid, probe.binWidths).bindown(g, s)[1]
+        # a survey-size observation has hundreds of bins with error bars of 10 - 30 ppm
+        levels = [1e-5, 2e-5, 3e-5] if self.layout == 'survey' else [4e-5, 8e-5, 1.6e-4, 3e-4]
+        err = np.array([rng.choice(levels) for _ in range(nb)])
+        data = ref + err * np.array([rng.randint(-2, 2) for _ in range(nb)])
+        self.d0 = []
+        if self.obspar:
+            self.d0 = [int(round(float(v) / self.DUNIT)) for v in data]
+            data = np.array(self.d0, dtype=float) * self.DUNIT
+        arr = np.stack([wl, data, err, wlw], axis=1)
+        mk = fo.offset_scale_spectrum_class() if self.obspar else ArraySpectrum
+        self.obs = mk(arr.copy())
+        self.twin_obs = mk(arr.copy())
+        self.twin_binner = self.twin_obs.create_binner()
+        self.C = fx.gauss_const(self.twin_obs.errorBar)
+        # log10 of the product of the sigma sqrt(2 pi): outside binary64 below -323 / above 308
+        self.log10_product = math.fsum(math.log10(float(e) * math.sqrt(2.0 * math.pi)) for e in err)
+
+    def switch_observation(self):
+        """The SAME optimizer is pointed at another observation of this world (other layout, usually another number of
+        bins, other error bars and data), as a user fitting a second visit does: set_observed ; what was done to the
+        observation's parameters is done again on the new one ; compile_params ; compute_fit -> new callbacks."""
+        self.build_observation()
+        self.opt.set_observed(self.obs)
+        for redo in self.obs_setup:
+            redo()
+        self.opt.compile_params()
+        fit = [p[0] for p in self.opt.fitting_parameters]
+        if fit != self.fit:
+            return 'fitted parameters %r before, %r after set_observed' % (self.fit, fit)
+        self.bound = Bound(self.sampler, self.opt, self.tmpdir)
+        self.last_valid_x = None
+        return None
+
+    def on_model(self):
+        """Per projected position: 1 if the parameter lives on the forward model."""
+        return [0 if n in self.OBS_ROLE else 1 for n in self.fit + self.unf]
 
     def entry(self, name):
         return (self.obs if name in self.OBS_ROLE else self.model).fittingParameters[name]
@@ -636,9 +814,28 @@ def record_trace(ctx, rng, tid, sampler, tmpdir, ncalls, events, pyverdicts, wid
     events.append(dict(base, ev='setup', id=len(events), kinds=w.kinds(), par=w.par_scaled(), nfit=len(w.fit),
                        proj=w.project(w.model, w.obs), sampler=sampler, cross=len(w.cross),
                        orole=w.roles(), d0=w.d0, off0=scaled(w.OBS_INIT['obs_offset']), sc0=scaled(w.OBS_INIT['obs_scale']),
-                       kind=w.kind, obspar=w.obspar))
+                       kind=w.kind, obspar=w.obspar, lp=w.log10_product))
     cls0 = '%s:%s%s%s' % (sampler, w.kind, ':' + wide if wide else '', ':obs-params' if w.obspar else '')
+    # half of the traces: ONE long-lived optimizer, pointed at a second observation half-way through
+    switch_at = ncalls // 2 if rng.random() < 0.5 else -1
     for c in range(ncalls):
+        if c == switch_at:
+            nb0 = len(w.bin_lo)
+            try:
+                why = w.switch_observation()
+            except Machinery:
+                raise
+            except Exception as e:   # noqa
+                pyverdicts.append(('never_raises', False, cls0 + ':set-observed', 'set_observed / compile_params / '
+                                   'compute_fit on a re-used optimizer raised %r' % (e,), tid))
+                return
+            cls0 = '%s:%s%s%s:reused:%s-nbins' % (sampler, w.kind, ':' + w.layout if wide else '',
+                                                  ':obs-params' if w.obspar else '', 'same' if len(w.bin_lo) == nb0 else 'other')
+            if why:
+                pyverdicts.append(('prior_in_fit_order', False, cls0, why, tid))
+                return
+            events.append(dict(base, ev='setobs', id=len(events), d0=w.d0, proj=w.project(w.model, w.obs), keep=w.on_model(),
+                               nb0=nb0, nb=len(w.bin_lo)))
         if rng.random() < 0.3:
             den = rng.choice([2, 4, 8, 16])
             u = [Fraction(rng.randint(1, den - 1), den) if w.pri[n][0] in ('gauss', 'loggauss')
@@ -689,7 +886,9 @@ def record_trace(ctx, rng, tid, sampler, tmpdir, ncalls, events, pyverdicts, wid
         elif kind == 'num':
             big = True
         events.append(dict(base, ev='like', id=len(events), x=[scaled(v) for v in x], before=before, after=after,
-                           oc=oc, ret=kind, chi=chi_obs, zs=zs, big=big, dat8=w.data_side(x) if w.obspar else []))
+                           oc=oc, ret=kind, chi=chi_obs, zs=zs, big=big, dat8=w.data_side(x) if w.obspar else [],
+                           moved=bool(w.obspar) and w.data_side(x) != [8 * d for d in w.d0], nobs=w.nobs,
+                           lp=w.log10_product))
         label = ('inject-%s:' % inject if inject else '') + ('valid' if oc == 'ok' else oc)
         cls = '%s:%s%s' % (cls0, label, ':cross-space' if w.cross else '')
         if exc is not None:
@@ -721,13 +920,13 @@ def run_traces(ctx, ntraces, ncalls):
         fg.register_wide_opacities()
         for tid in range(ntraces):
             # every third group of three traces (one per sampler) lives in the wide world, layout classes in turn
-            wide = fg.LAYOUT_CLASSES[(tid // 9) % len(fg.LAYOUT_CLASSES)] if (tid // 3) % 3 == 2 else None
+            wide = WIDE_CLASSES[(tid // 9) % len(WIDE_CLASSES)] if (tid // 3) % 3 == 2 else None
             record_trace(ctx, rng, tid, SAMPLERS[tid % 3], tmpdir, ncalls, events, pyv, wide=wide)
     finally:
         shutil.rmtree(tmpdir, ignore_errors=True)
     for clause, ok, cls, detail, tid in pyv:
         ctx.verdict(clause, ok, cls=cls, detail=detail, vector=dict(kind='trace', seed=ctx.seed, tid=tid, ntraces=ntraces, ncalls=ncalls))
-    slim = [{k: v for k, v in e.items() if k not in ('sampler', 'cross', 'kind', 'obspar')} for e in events]
+    slim = [{k: v for k, v in e.items() if k not in ('sampler', 'cross', 'kind', 'obspar', 'lp', 'nb0', 'nb', 'moved', 'nobs')} for e in events]
     accepted, bad, res = validate_trace('Trace_Likelihood', 'Trace_Likelihood.cfg', slim)
     ctx.add_tlc('trace', res, counts=False)
     if res.postcondition_false and not bad:
@@ -759,7 +958,7 @@ def run_traces(ctx, ntraces, ncalls):
     wide_ok = [e for e in likes if setups[e['tid']]['kind'] == 'wide' and e['oc'] == 'ok']
     wide_tlc = [e for e in wide_ok if e['ret'] == 'num' and not e['big']]
     obs_ok = [e for e in likes if setups[e['tid']]['obspar'] and e['oc'] == 'ok']
-    obs_moved_n = sum(1 for e in obs_ok if e['dat8'] != [8 * d for d in setups[e['tid']]['d0']])
+    obs_moved_n = sum(1 for e in obs_ok if e['moved'])
     obs_tlc = [e for e in obs_ok if e['ret'] == 'num' and not e['big']]
     nwide = sum(1 for e in setups.values() if e['kind'] == 'wide')
     nobs = sum(1 for e in setups.values() if e['obspar'])
@@ -769,6 +968,22 @@ def run_traces(ctx, ntraces, ncalls):
     if nwide < 6 or len(wide_ok) < 20 or nobs < 6 or obs_moved_n < 15:
         raise Machinery('trace generator: too few wide-grid / observation-parameter calls (%d/%d/%d/%d)' %
                         (nwide, len(wide_ok), nobs, obs_moved_n))
+    # the history and magnitude classes added after the third round of seeded changes: the SAME optimizer pointed at
+    # a second observation (same / other number of bins), observations whose product of sigma sqrt(2 pi) leaves binary64
+    switches = [e for e in events if e['ev'] == 'setobs']
+    after = [e for e in likes if e['nobs'] > 1 and e['oc'] == 'ok']
+    after_inv = [e for e in likes if e['nobs'] > 1 and e['oc'] not in ('ok', 'NaNSome')]
+    extreme = [e for e in likes if e['oc'] == 'ok' and not -300.0 < e['lp'] < 300.0]
+    extreme_samplers = {setups[e['tid']]['sampler'] for e in extreme}
+    ctx.note('real-model traces: %d optimizers pointed at a second observation half-way (%d of them with another number '
+             'of bins; %d valid and %d invalid calls afterwards); %d valid calls on observations whose product of '
+             'sigma sqrt(2 pi) is outside binary64 (samplers %s)' %
+             (len(switches), sum(1 for e in switches if e['nb'] != e['nb0']), len(after), len(after_inv), len(extreme),
+              sorted(extreme_samplers)))
+    if not ctx.has_violations() and (len(switches) < 6 or len(after) < 12 or len(after_inv) < 3 or
+                                     len(extreme_samplers) < 3):
+        raise Machinery('trace generator: too few re-used optimizers / survey-size observations (%d/%d/%d/%r)' %
+                        (len(switches), len(after), len(after_inv), sorted(extreme_samplers)))
     ctx.add_sample(dict(trace_event=next(e for e in slim if e['ev'] == 'like' and e['ret'] == 'num')))
     # canaries: corrupt one field of accepted events; TLC must reject
     goodl = [e for e in slim if e['ev'] == 'like' and e['tid'] not in badt and e['ret'] == 'num' and not e['big']]
@@ -780,15 +995,20 @@ def run_traces(ctx, ntraces, ncalls):
         raise Machinery('no event available for the canary')
     goodd = [e for e in goodl if e['dat8'] and e['oc'] == 'ok']
     kinds = ('chi', 'written', 'finite_for_invalid', 'data')
+    goods = [e for e in slim if e['ev'] == 'setobs' and e['tid'] not in badt]
     if not goodd:
         if not any(c['bad'] or c['known'] for c in ctx.clauses.values()):
             raise Machinery('no accepted event of an observation with parameters for the data-side canary')
         ctx.note('data-side canary skipped: no accepted event of an observation with parameters is left '
                  '(violations already reported)')
         kinds = kinds[:3]
+    if goods:
+        kinds = kinds + ('setobs',)
+    elif not ctx.has_violations():
+        raise Machinery('no accepted set_observed event for the canary')
     batch = []
     for k, which in enumerate(kinds):
-        pool = goodn if which == 'finite_for_invalid' else goodd if which == 'data' else goodl
+        pool = goodn if which == 'finite_for_invalid' else goodd if which == 'data' else goods if which == 'setobs' else goodl
         e0 = pool[len(pool) // 2]
         tr = [dict(e, tid=900000 + k) for e in slim if e['tid'] == e0['tid'] and e['id'] <= e0['id']]
         c = tr[-1]
@@ -800,6 +1020,9 @@ def run_traces(ctx, ntraces, ncalls):
         elif which == 'data':
             c['dat8'] = list(c['dat8'])
             c['dat8'][0] += 8              # the data side of one bin off by one unit (1e-7): e.g. a stale offset
+        elif which == 'setobs':
+            c['proj'] = list(c['proj'])
+            c['proj'][c['keep'].index(1)] += 5          # set_observed disturbed a parameter of the forward model
         else:
             c['ret'] = 'num'
             c['big'] = True
@@ -874,6 +1097,15 @@ def run(ctx):
         observation_parameters='toy world "obs": offset (lin) and scale (log) fitted on the observation, all vectors x '
                                'fault classes x call sequences; real traces: OffsetScaleSpectrum (offset in ppm, scale), '
                                'one or both fitted, uniform / Gaussian priors, points on a 1/8 grid',
+        reused_optimizer='toy world "hist": ONE optimizer pointed at three observations (2 bins, 2 bins with another layout, 3 '
+                         'bins; other data and error bars) in any order between evaluations, all vectors x fault classes x call '
+                         'sequences; TLC-generated walks (harness/history.py) over observation (real ArraySpectrum, 2 / 2 / 3 '
+                         'bins) x fitted subset x boundaries, three samplers, compared with fresh optimizers; half of the '
+                         'real-model traces switch to a second observation half-way (another layout class / number of bins)',
+        size_and_magnitude='n = %s bins x unit 2^-11 (transit depth, error bars 2e-6..3e-5) / 2^-91 (flux ~1e-26) / 2^60 x '
+                           'heteroscedastic error bars (factor 16), three samplers; wide real traces: survey-size layouts '
+                           '(R 40-50 over 0.5-12 micron, 120-160 bins, error bars 10-30 ppm)'
+                           % ('3, 24, 150, 400' if q else '3, 11, 24, 60, 150, 400, 1000; two error-bar levels'),
         wide_traces='a third of the real-model traces: CO2 + CO on an 800-point constant-R native grid 0.3-25 micron, '
                     'observations: constant R 8-20 over 0.4-12 micron, the same with gaps, R 30-45 spectrograph + 1-3 '
                     'broad photometric bands, two instruments (R 30-40 and R 5-7); heteroscedastic errors',
@@ -893,7 +1125,11 @@ def run(ctx):
         'observations report their bins in ascending wavenumber (as ArraySpectrum / ObservedSpectrum do)',
         'layouts whose bins reach outside the window [cmin - W, cmax + W] of clip_native_to_wngrid (W: widest mid-point '
         'width of the centres) are not judged: refuted at design level, observed on the code, reported as a finding',
-        'an observation parameter that changes errorBar (not spectrum) is outside the generated classes']
+        'an observation parameter that changes errorBar (not spectrum) is outside the generated classes',
+        're-use of an optimizer = set_observed(new) ; (settings of the new observation\'s own parameters applied again) ; '
+        'compile_params() ; compute_fit(): callbacks of an earlier compute_fit are not used after set_observed',
+        'survey-size wide layouts keep every bin 1.5 native spacings inside the clip window of the code (bins at least 3.6 '
+        'native spacings wide); sharper observations fall under the known finding L-C13b of C13 and are not generated']
     # The design-level TLC runs do not depend on the implementation: they run in two background threads (TLC is a
     # subprocess) while this thread drives the real code; their verdicts (Machinery on a violated design invariant, a
     # vacuous action or a missing expected counterexample) are collected at the end.
@@ -923,6 +1159,15 @@ def run(ctx):
                               'ValidEqualsGaussian'), {}),
         (ctx.expect_refuted, ('observation-one-call-late', 'MC_Likelihood', 'MC_Likelihood_obslag.cfg',
                               'ValidEqualsGaussian'), {}),
+        # ONE long-lived optimizer pointed at three observations one after the other (other layout, other number of bins)
+        (ctx.check_spec, ('exhaustive-hist', 'MC_Likelihood', 'MC_Likelihood_hist.cfg'),
+         dict(need_actions=('PriorCall', 'LogLike', 'SetObserved'), workers=4)),
+        # the binner built at the first evaluation and never rebuilt: the model is binned to an earlier observation's bins
+        (ctx.expect_refuted, ('binner-built-once-lazily', 'MC_Likelihood', 'MC_Likelihood_lazybinner.cfg',
+                              'ValidEqualsGaussian'), dict(workers=4)),
+        # the normalisation term formed as the log of a product: leaves binary64 for many bins / small or large units
+        (ctx.expect_refuted, ('normalisation-log-of-product', 'MC_LikeNorm', 'MC_LikeNorm_ref_logprod.cfg',
+                              'NormIsSumOfLogs'), dict(workers=1)),
         # native grid much wider than the observation: margin of the clip taken from the first bin (not the widest)
         (ctx.expect_refuted, ('clip-margin-of-first-bin', 'MC_LikeGrid', 'MC_LikeGrid_ref_first.cfg',
                               'LikelihoodOfFullGrid'), {}),
@@ -937,14 +1182,27 @@ def run(ctx):
                                                 'LikelihoodOfFullGrid'), {}))
         design.append((ctx.expect_refuted, ('layouts-with-widths-varying-2x', 'MC_LikeGrid', 'MC_LikeGrid_ref_nogrowth.cfg',
                                             'NoGrowth'), {}))
+        # the binner built by the constructor only: another number of bins raises out of the callback
+        design.append((ctx.expect_refuted, ('binner-built-by-constructor-only', 'MC_Likelihood',
+                                            'MC_Likelihood_initbinner.cfg', 'NeverRaises'), dict(workers=4)))
+        design.append((ctx.expect_refuted, ('normalisation-half-log-of-product-of-squares', 'MC_LikeNorm',
+                                            'MC_LikeNorm_ref_halflogprodsq.cfg', 'NormIsSumOfLogs'), dict(workers=1)))
+        # non-vacuity: the generated observations do drive the product of the error bars out of binary64
+        design.append((ctx.expect_refuted, ('observations-beyond-the-range-of-the-product', 'MC_LikeNorm',
+                                            'MC_LikeNorm_ref_smallonly.cfg', 'ProductRepresentable'), dict(workers=1)))
     pool = ThreadPoolExecutor(max_workers=2)
     futures = [pool.submit(f, *a, **k) for f, a, k in design]
     try:
         # observation layouts on a native grid much wider than the observation: clipping contract + exported vectors
         run_grid_vectors(ctx, 'MC_LikeGrid_quick.cfg' if q else 'MC_LikeGrid_thorough.cfg')
+        # observations of any size and magnitude: the normalisation term
+        run_norm_vectors(ctx, 'MC_LikeNorm_quick.cfg' if q else 'MC_LikeNorm_thorough.cfg')
         n = run_behaviours(ctx, 30 if q else 300, 9 if q else 12,
-                           ('two', 'mixed', 'obs') if q else ('two', 'three', 'mixed', 'obs'))
+                           ('two', 'mixed', 'obs', 'hist') if q else ('two', 'three', 'mixed', 'obs', 'hist'))
         ctx.note('replayed %d simulated behaviours' % n)
+        # one long-lived optimizer, settings changed between fits, compared with freshly built optimizers
+        n = run_optimizer_history(ctx, 6 if q else 60)
+        ctx.note('replayed %d TLC-generated walks over the settings of a re-used optimizer' % n)
         run_traces(ctx, 45 if q else 600, 14 if q else 20)
         observe_overlapping(ctx)
     except BaseException:
@@ -970,7 +1228,7 @@ def replay(ctx, violations):
             seen.add(key)
             tmpdir = tempfile.mkdtemp(prefix='c06_')
             try:
-                replay_behaviour(ctx, vec['sampler'], dict(layout=vec['layout'], hist=vec['hist']), tmpdir)
+                replay_behaviour(ctx, vec['sampler'], dict(layout=vec['layout'], hist=vec['hist'], obs=vec.get('obs')), tmpdir)
             finally:
                 shutil.rmtree(tmpdir, ignore_errors=True)
         elif vec.get('kind') == 'grid':
@@ -979,6 +1237,17 @@ def replay(ctx, violations):
                 continue
             seen.add(key)
             run_grid_vectors(ctx, vec['cfg'])
+        elif vec.get('kind') == 'norm':
+            key = ('norm', vec['cfg'])
+            if key in seen:
+                continue
+            seen.add(key)
+            run_norm_vectors(ctx, vec['cfg'])
+        elif 'history' in vec:
+            if 'history' in seen:
+                continue
+            seen.add('history')
+            run_optimizer_history(ctx, 6)
         elif vec.get('kind') == 'trace':
             key = ('trace', vec['seed'])
             if key in seen:
